@@ -151,8 +151,17 @@ func (r *responseWriter) Close() (err error) {
 
 	if nil != r.chunkWriter {
 		err = r.chunkWriter.Close()
-		if nil == err && r.Header().Get("Trailer") == "" {
-			// no trailer
+		if nil == err {
+			// the trailer section: the fields announced in "Trailer" that
+			// the handler has set meanwhile, then the closing empty line.
+			for _, names := range r.Header().Values("Trailer") {
+				for _, name := range strings.Split(names, ",") {
+					name = http.CanonicalHeaderKey(strings.TrimSpace(name))
+					for _, value := range r.Header().Values(name) {
+						fmt.Fprintf(r.writer, "%s: %s\r\n", name, value)
+					}
+				}
+			}
 			_, err = fmt.Fprint(r.writer, "\r\n")
 		}
 	}
